@@ -236,6 +236,13 @@ CMPF = {'Lt': lambda a, b: a < b, 'LtE': lambda a, b: a <= b, 'Gt': lambda a, b:
 BINF = {'Add': lambda a, b: a + b, 'Sub': lambda a, b: a - b, 'Mult': lambda a, b: a * b}
 
 
+PATH = ('sym', 'Path')
+
+
+def is_path(t):
+    return t[0] == 'call' and t[1] == PATH and len(t[2]) == 1
+
+
 def is_enum_member(t):
     return t[0] == 'attr' and t[1][0] == 'sym' and t[1][1] in ENUM_CLASSES
 
@@ -331,6 +338,9 @@ def simp1(t):
         return None
     if k == 'bin':
         op, a, b = t[1], t[2], t[3]
+        if op == 'Div' and is_path(a):
+            # Path(d) / name  is  Path(d + '/' + name)   (pathlib: the canonical spelling is the string one)
+            return ('call', PATH, (('bin', 'Add', ('bin', 'Add', a[2][0], C('/')), b[2][0] if is_path(b) else b),), ())
         if op in BINF and is_num(a) and is_num(b):
             return C(BINF[op](a[1], b[1]))
         if op == 'Add' and a[0] == 'const' and b[0] == 'const' and isinstance(a[1], str) and isinstance(b[1], str):
@@ -365,6 +375,19 @@ def simp1(t):
         if is_literal_seq(b) and lo[0] == 'const' and hi[0] == 'const':
             return (b[0], tuple(b[1][lo[1]:hi[1]]))
         return None
+    if k == 'call' and t[1] in (S('Path'), A(S('pathlib'), 'Path'), S('PurePath')) and len(t[2]) == 1 and not (len(t) > 3 and t[3]) and is_path(t[2][0]):
+        return t[2][0]
+    if k == 'call' and t[1] == A(S('pathlib'), 'Path') and len(t[2]) == 1 and not (len(t) > 3 and t[3]):
+        return ('call', PATH, t[2], ())
+    if k == 'call' and t[1][0] == 'attr' and is_path(t[1][1]):
+        # Path(x).read_text() / .open(mode) / .write_text(s): the open()-based spellings the rules know
+        m, x = t[1][2], t[1][1][2][0]
+        if m == 'read_text' and not t[2]:
+            return ('call', ('attr', ('call', S('open'), (x,), ()), 'read'), (), ())
+        if m == 'open':
+            return ('call', S('open'), (x,) + tuple(t[2]), tuple(t[3]) if len(t) > 3 else ())
+        if m == 'write_text' and len(t[2]) == 1:
+            return ('call', ('attr', ('call', S('open'), (x, C('w')), ()), 'write'), tuple(t[2]), ())
     if k == 'call':
         f, args = t[1], t[2]
         fname = f[1] if f[0] == 'sym' else (f[2] if (f[0] == 'attr' and f[1] == ('sym', 'itertools')) else None)
